@@ -52,6 +52,9 @@ func runC01(c *Ctx) {
 	// the bytes requested are the bytes of the entry they are written to: ids
 	// are zero-based STAT positions on both ends (shared with C06/C07)
 	idNumbering(c, "R01.18", "R01.19", "R01.20")
+	// file bytes for every prior destination: an old entry is replaced by
+	// rename, never written into (shared with C07)
+	r07_12(c, "R01.21")
 }
 
 // statSources: required provenance of each Stat field in the constructor.
